@@ -542,7 +542,7 @@ func judgeChain(w *core.W, c *chainCase) {
 }
 
 func runC03(r *core.Run) {
-	r.Rule("random handler programs: 0-3 application middleware, 0-3 nested groups with 0-2 handlers each, 1-4 route handlers, optional action, 1/6 of requests unrouted (middleware + not-found handlers + action); every handler is a random action list (<=5) over {event, Write, WriteHeader, Next, cancel request context, panic} plus a return shape {none, \"\", string, []byte, nil []byte, (int,string), (int,\"\"), error, nil error}, invoked through the fast path or reflectively. Oracle: per-request event log (handler enter/exit, Next begin/end, every call reaching a spy writer) must equal the prediction of a statement-level interpreter, plus interpreter-independent trace predicates (consecutive start order, nesting, no automatic advance after write/cancel, one status before body). non-trivial = distinct programs with >=1 Next and an effect (write/cancel/panic) in a different handler, or >=2 Next in one handler, or the nil action reached")
+	r.Rule("random handler programs: 0-3 application middleware, 0-3 nested groups with 0-2 handlers each, 1-4 route handlers, optional action, 1/6 of requests unrouted (middleware + not-found handlers + action); every handler is a random action list (<=5) over {event, Write, WriteHeader, Next, cancel request context, replace the request context by a derived one, panic} plus a return shape {none, \"\", string, []byte, nil []byte, (int,string), (int,\"\"), error, nil error}, invoked through the fast path or reflectively. Oracle: per-request event log (handler enter/exit, Next begin/end, every call reaching a spy writer) must equal the prediction of a statement-level interpreter, plus interpreter-independent trace predicates (consecutive start order, nesting, no automatic advance after write/cancel, one status before body). non-trivial = distinct programs with >=1 Next and an effect (write/cancel/panic) in a different handler, or >=2 Next in one handler, or the nil action reached")
 	c03Canaries(r)
 	n := r.N(60000, 6000000)
 	r.Parallel("prog", n, func(w *core.W, rng *rand.Rand, i int) {
